@@ -92,7 +92,8 @@ class C15(PropBase):
             ops.append({'op': 'send', 'i': 0, 'id': rid, 'data': gen.rand_payload(rng, n)})
             nframes += n // c + 2
         wns = int(w * 1e9)
-        fid, ext, data = fc_frame(a, 0, 0)
+        # block size granted by the peer: the last frame of every block (and the First Frame) must be accounted like any other
+        fid, ext, data = fc_frame(a, rng.choice([0, 0, 1, 2, 8]), 0)
         budget_frames = max(1, int(br * w) // (txdl * 8))
         steps = min(400, int(nframes / budget_frames * 8) + nframes // 2 + 12)
         for k in range(steps):
